@@ -26,7 +26,7 @@ RULE = ("Hypothesis: general graphs (IRI instances; blank nodes only for channel
         "detector).  An evaluation is one graph with all its channels.  Non-trivial: a channel with >=2 files or compression or a "
         "non-NT syntax on a graph with a language-tagged or typed literal; distinct by SHA-1 of the case.")
 ASSUMPTIONS = c01.ASSUMPTIONS + ["rdflib 6.0.2 serialisers (xml, json-ld) produce the documents for those syntaxes", "URL channels use file:// URLs (no network)"]
-BUDGET = {"quick": {"examples": 4000, "wall": 200}, "thorough": {"examples": 100000, "wall": 5400}}
+BUDGET = {"quick": {"examples": 4000, "wall": 200}, "thorough": {"examples": 50000, "wall": 900}}
 FLOORS = {"nontrivial": 0.3, "comp": 0.2, "multi-file": 0.15, "fmt:xml": 0.05, "fmt:json-ld": 0.05, "fmt:turtle_iter": 0.05}
 SPECIAL_LEX = ['a@b', '50%', 'say "hi"@home', 'x^^y', "it's", "a # b", 'q"', 'caf\u00e9', '\u65e5\u672c \u00fc', 'a\\b', 'line\u2028sep', 'next\u0085line', 'para\u2029graph']
 STABLE_BNODE = {("nt", "raw"), ("nt", "file"), ("nt", "files"), ("tsv_spo", "raw"), ("tsv_spo", "file"), ("tsv_spo", "files"),
